@@ -28,6 +28,43 @@ def history(word, c1, c0, probe=True):
     return {"canc": [c0, c1], "ops": ops, "word": "".join(word), "family": "two"}
 
 
+# three levels: Deferred 2 (outer) may wait on 1 (middle), which may wait on 0 (pending)
+LETTERS3 = {
+    "A": ["add", 2, ["ret", ["D", 1]], None],
+    "M": ["add", 1, ["ret", ["D", 0]], None],
+    "2": ["cb", 2, 1], "1": ["cb", 1, 1], "0": ["cb", 0, 5],
+    "x": ["cancel", 2], "z": ["cancel", 1], "y": ["cancel", 0],
+}
+
+
+def history3(word, c0):
+    return {"canc": [c0, ["none"], ["none"]], "ops": [LETTERS3[ch] for ch in word], "word": "".join(word), "family": "three"}
+
+
+def forward_scenario(rng):
+    """a chain of 2-5 Deferreds waiting on each other through fired-and-waiting middle ones; cancel at some level;
+    then late results and repeated cancels"""
+    levels = rng.randrange(2, 6)
+    nd = levels + (1 if rng.random() < 0.3 else 0)
+    canc = [K.rand_canc(rng) for _ in range(nd)]
+    ops = [["add", i + 1, ["ret", ["D", i]], None] if rng.random() < 0.8 else ["add", i + 1, ["ret", ["D", i]], ["ret", ["D", i]]]
+           for i in range(levels - 1)]
+    fires = [[rng.choice(["cb", "cb", "eb"]) if False else "cb", i, 1] for i in range(1, levels)]
+    if rng.random() < 0.5:
+        fires.reverse()                 # outer first / inner first: the middle ones end up fired and waiting
+    if rng.random() < 0.3:
+        rng.shuffle(ops)
+    ops += fires
+    if rng.random() < 0.3:
+        ops.insert(rng.randrange(len(ops) + 1), ["add", rng.randrange(nd), ["pass"], ["pass"]])
+    ops.append(["cancel", rng.randrange(levels)] if rng.random() < 0.3 else ["cancel", levels - 1])
+    for _ in range(rng.randrange(0, 4)):
+        r = rng.random()
+        d = rng.randrange(nd)
+        ops.append(["cb", d, 3] if r < 0.4 else ["eb", d, 1] if r < 0.55 else ["cancel", d])
+    return {"canc": canc, "ops": ops}
+
+
 def gen(rng, tier):
     cases = []
     base = "cexai"
@@ -58,6 +95,18 @@ def gen(rng, tier):
                 if tier != "quick" and n == 4 and rng.random() > 0.3:
                     continue
                 cases.append(history(word, c1, c0, probe=(rng.random() < 0.8)))
+    # three levels: the middle Deferred fired and itself waiting
+    for c0 in ([["none"], ["nothing"], ["raise", 1]] if tier == "quick" else CANC):
+        for n in range(1, 6 if tier == "quick" else 7):
+            for word in itertools.product("AM210xzy", repeat=n):
+                if "x" not in word and "z" not in word:
+                    continue
+                keep3 = {4: 0.08, 5: 0.005} if tier == "quick" else {5: 0.1, 6: 0.005}
+                if n in keep3 and rng.random() > keep3[n]:
+                    continue
+                cases.append(history3(word, c0))
+    for _ in range(500 if tier == "quick" else 10000):
+        cases.append(forward_scenario(rng))
     # random longer programs (arbitrary callbacks incl. returned Deferreds, 1-4 Deferreds, all cancellers)
     for _ in range(1200 if tier == "quick" else 10000):
         nd = rng.randrange(1, 5)
@@ -73,6 +122,12 @@ def corpus():
         history("acxx", ["none"], ["raise", 1]),       # forwarded cancel whose canceller raises: may run again
         history("xx", ["cb", 7], ["none"]),            # canceller fires; second cancel is a no-op
         history("cx", ["nothing"], ["none"]),          # cancel after firing without waiting: no effect
+        history3("M1A2x0", ["nothing"]),               # outer waits on a fired middle that waits on pending: 2 levels
+        history3("A2M1x00", ["none"]),                 # same, outer fired first; swallowed + rejected late results
+        history3("M1A2zx", ["raise", 1]),              # raising canceller reached twice through the chain
+        {"canc": [["cb", 7], ["none"], ["none"], ["none"]],                                   # 3 levels
+         "ops": [["add", 1, ["ret", ["D", 0]], None], ["cb", 1, 1], ["add", 2, ["ret", ["D", 1]], None], ["cb", 2, 1],
+                 ["add", 3, ["ret", ["D", 2]], None], ["cb", 3, 1], ["cancel", 3], ["cancel", 3]]},
         K and {"canc": [["none"]], "ops": [["add", 0, ["ret", ["D", 0]], None], ["cb", 0, 1], ["cancel", 0]]},
     ]
 
@@ -104,10 +159,11 @@ def oracle(case, obs):
         return Failure(case, "malformed log", "log")
     fired = [False] * nd
     swallow = [False] * nd        # a canceller-less cancel fired it: exactly one late result is ignored
-    waits = [None] * nd           # Deferred this one is known to be waiting on (tracked only without pauses)
-    # in the two-Deferred family only Deferred 1 can wait, only on Deferred 0, and nothing is ever paused:
-    # there the Deferred a cancel() must reach is tracked exactly
-    simple = case.get("family") == "two"
+    # the Deferred a cancel() must reach is computed from the reference interpreter's state (harness/deferredk.py):
+    # a fired Deferred whose current result is a Deferred forwards the cancellation, to ANY depth, and the
+    # innermost unfired Deferred is the one that is cancelled
+    ref = K.Reference(case["canc"])
+    simple = case.get("family") == "two"      # probes first: the accepted result is visible
     accepted = [None] * nd
     for k, (o, e) in enumerate(zip(ops, evs)):
         toks = [] if e == "-" else e.split(",")
@@ -141,20 +197,8 @@ def oracle(case, obs):
                                    "late-result-not-rejected")
         elif kind == "cancel":
             # where must the cancellation go?
-            t, hops = d, 0
-            known = True
-            while fired[t]:
-                if not simple:
-                    known = False
-                    break
-                if waits[t] is None:
-                    t = None
-                    break
-                t = waits[t]
-                hops += 1
-                if hops > nd:
-                    known = False
-                    break
+            t, hops = ref.cancel_target(d)
+            known = t != "RE"
             if known and t is None:
                 if toks:
                     return Failure(case, where + "cancel() of a fired Deferred that waits on nothing must do nothing",
@@ -163,14 +207,16 @@ def oracle(case, obs):
                 c = case["canc"][t]
                 if c[0] == "none":
                     if cancellers or fired_now != [t] or toks[0] != f"F{t}":  # idem
-                        return Failure(case, where + f"cancel must fail Deferred {t} (no canceller) with CancelledError",
-                                       "cancel-unfired-not-fired" if t == d else "cancel-not-forwarded")
+                        return Failure(case, where + f"cancel must reach Deferred {t} ({hops} level(s) down the chain of results; no canceller) and fail it "
+                                       "with CancelledError",
+                                       "cancel-unfired-not-fired" if hops == 0 else "cancel-not-forwarded")
                     swallow[t] = True
                     accepted[t] = "EC"
                 else:
                     if cancellers != [t] or toks[0] != f"K{t}":  # idem
-                        return Failure(case, where + f"the canceller of Deferred {t} must be invoked exactly once",
-                                       "canceller-not-once" if t == d else "cancel-not-forwarded")
+                        return Failure(case, where + f"the canceller of Deferred {t} ({hops} level(s) down the chain of results) must be invoked "
+                                       "exactly once",
+                                       "canceller-not-once" if hops == 0 else "cancel-not-forwarded")
                     if c[0] == "raise":
                         if fired_now or toks != [f"K{t}", f"X{c[1]}"]:
                             return Failure(case, where + "a raising canceller: its exception must leave cancel() and "
@@ -202,30 +248,19 @@ def oracle(case, obs):
                     if m and int(m.group(1)) == t and m.group(3) != accepted[t]:
                         return Failure(case, where + f"Deferred {t} accepted {m.group(3)}, expected {accepted[t]}",
                                        "wrong-accepted-result")
-        # chaining bookkeeping for forwarded cancels (two-Deferred family), tokens in order
-        if simple:
-            seen = set()
-            for tok in toks:
-                if re.fullmatch(r"F\d+", tok):
-                    seen.add(int(tok[1:]))
-                    for x in range(nd):
-                        if waits[x] == int(tok[1:]):
-                            waits[x] = None       # the fired Deferred hands its result over at once
-                    continue
-                m = _R.match(tok)
-                if not m:
-                    continue
-                dd, kk, arg = int(m.group(1)), int(m.group(2)), m.group(3)
-                b = _ret_of(case, kk, arg.startswith("E"))
-                waits[dd] = None
-                if b and b[0] == "ret" and b[1][0] == "D":
-                    i = b[1][1]
-                    was_fired = fired[i] or i in seen
-                    if not was_fired:
-                        waits[dd] = i
+        # the whole operation against the reference interpreter (exact events, in order)
+        want = ref.op(o)
+        for tok in toks:
+            if tok.startswith("!"):
+                return Failure(case, where + "an exception raised by a callback escaped from the call",
+                               "callback-exception-escaped")
+        if want != e:
+            return Failure(case, where + f"the reference interpreter predicts {want}", "differs-from-reference:" + kind)
         for t in fired_now:
             fired[t] = True
-    # (fired flags are updated at the end of each operation, see below)
+    if final != ref.final():
+        return Failure(case, f"final state {final}, the reference interpreter predicts {ref.final()}",
+                       "differs-from-reference:final")
     # final flags agree with the log
     states = final.split(" ") if final else []
     for t, st in enumerate(states):
@@ -242,6 +277,8 @@ def shrink(case):
 
 def histogram(case, obs):
     c = case["canc"]
+    if case.get("family") == "three":
+        return f"3-level history len={len(case['word'])} pending={c[0][0]}"
     if "word" in case and case.get("word"):
         return f"history len={len(case['word'])} outer={c[1][0]} inner={c[0][0]}"
     return f"random nd={len(c)}"
@@ -260,14 +297,18 @@ SPEC = Spec(
          "outer.errback, outer.cancel, add a callback returning the unfired inner Deferred, fire the inner Deferred} "
          "x 7 (quick) / 25 (thorough) canceller pairs from {none, does nothing, fires callback, fires errback, "
          "raises}^2, each Deferred first given a pass-through probe callback; every history of length <= 3 (4) over "
-         "that alphabet + {inner.cancel, inner.errback}; 1 200 (10 000) random programs of 3-15 operations over the "
+         "that alphabet + {inner.cancel, inner.errback}; every history with a cancel of length <= 3 (8% of 4, 0.5% of 5; thorough <= 4, 10% of 5, 0.5% of 6) over the "
+         "3-level alphabet {outer returns middle, middle returns pending, fire each, cancel each} x 3 (5) cancellers of "
+         "the pending Deferred; 500 (10 000) forwarding scenarios (2-5 levels of fired-and-waiting Deferreds, cancel at "
+         "any level, late results); 1 200 (10 000) random programs of 3-15 operations over the "
          "kernel alphabet without pause/unpause on 1-4 Deferreds.  non-trivial = an AlreadyCalledError, a swallowed result, a "
          "canceller call or a CancelledError occurs; distinct by (case, observation)",
     trusted=["hand-written kernel model coq/Lib/DeferredK.v (tied by this correspondence run only)",
              "callbacks and cancellers are a fixed behaviour (value / None / Failure / Deferred / raise / pass-through; "
              "canceller: none / nothing / callback / errback / raise); callbacks that call back into Deferred methods "
              "(re-entrancy, _runningCallbacks) are not modelled",
-             "harness/deferredk.py driver and the oracle in harness/c03.py"],
+             "harness/deferredk.py driver, its recursive reference interpreter (used by the oracle for the cancel() "
+             "target and the exact events) and the oracle in harness/c03.py"],
     assumptions=["a canceller that raises: the exception leaves cancel(), the Deferred stays unfired (the code's "
                  "behaviour; the property statement is read as being about cancellers that return)"],
 )
